@@ -22,7 +22,7 @@ import (
 // takes the partial message past RecvMessageCapacity (see the "unterminated-stream" tail of TestDelivery for why
 // 4096 further accepted wire bytes prove that packet was handled).
 func TestDirectedUnterminatedStream(t *testing.T) {
-	for _, tc := range []struct{ payload, capacity, chunk int }{{1024, 3000, 1024}, {1024, 1024, 1}, {16, 100, 16}, {1, 5, 1}} {
+	for _, tc := range []struct{ payload, capacity, chunk int }{{1024, 3000, 1024}, {1024, 1024, 1}, {16, 100, 16}, {1, 5, 1}, {65536, 4, 65536}, {16384, 40000, 16384}} {
 		descs := []*conn.ChannelDescriptor{{ID: 0x01, Priority: 1, SendQueueCapacity: 1, RecvMessageCapacity: tc.capacity}}
 		cfg := conn.DefaultMConnConfig()
 		cfg.MaxPacketMsgPayloadSize, cfg.SendRate, cfg.RecvRate, cfg.FlushThrottle = tc.payload, 0, 0, time.Millisecond
@@ -33,15 +33,18 @@ func TestDirectedUnterminatedStream(t *testing.T) {
 		if err := receiver.Start(); err != nil {
 			t.Fatal(err)
 		}
-		acc, past, refused := 0, 0, false
-		for !refused && past < 4096 {
+		acc, past, refused, crossed := 0, 0, false, false
+		for !refused && past < 2048+2*(tc.payload+16) {
 			if err := writeRawPacket(c1, 0x01, false, fill(uint64(acc), tc.chunk)); err != nil {
 				refused = true
 				break
 			}
 			acc += tc.chunk
-			if acc > tc.capacity {
+			if crossed {
 				past += tc.chunk + 8
+			}
+			if acc > tc.capacity {
+				crossed = true
 			}
 		}
 		_, nerr := rs.snapshot()
@@ -112,5 +115,62 @@ func TestDirectedPeerBitArraysOfOtherWidth(t *testing.T) {
 			}
 			e.close()
 		}
+	}
+}
+
+// TestDirectedPayloadSizes: two honest ends with the same max_packet_msg_payload_size, for sizes around every point where
+// the packet envelope grows, channel ids below and above 0x7f, messages of 1, p-1, p, p+1, 2p and 3p+17 bytes.
+func TestDirectedPayloadSizes(t *testing.T) {
+	for _, p := range []int{1, 100, 118, 127, 128, 1024, 16375, 16376, 16383, 16384, 65536} {
+		descs := []*conn.ChannelDescriptor{
+			{ID: 0x20, Priority: 1, SendQueueCapacity: 16, RecvMessageCapacity: 4*p + 100},
+			{ID: 0x90, Priority: 1, SendQueueCapacity: 16, RecvMessageCapacity: 4*p + 100}}
+		cfg := conn.DefaultMConnConfig()
+		cfg.MaxPacketMsgPayloadSize, cfg.SendRate, cfg.RecvRate, cfg.FlushThrottle = p, 0, 0, time.Millisecond
+		c1, c2 := net.Pipe()
+		rs := &recvSide{got: map[byte][][]byte{}, notify: make(chan struct{}, 1)}
+		ss := &recvSide{got: map[byte][][]byte{}, notify: make(chan struct{}, 1)}
+		sender := conn.NewMConnectionWithConfig(c1, descs, ss.onReceive, ss.onError, cfg)
+		receiver := conn.NewMConnectionWithConfig(c2, descs, rs.onReceive, rs.onError, cfg)
+		sender.SetLogger(log.NewNopLogger())
+		receiver.SetLogger(log.NewNopLogger())
+		if err := sender.Start(); err != nil {
+			t.Fatal(err)
+		}
+		if err := receiver.Start(); err != nil {
+			t.Fatal(err)
+		}
+		var want [][]byte
+		for i, n := range []int{1, p - 1, p, p + 1, 2 * p, 3*p + 17} {
+			if n < 0 {
+				n = 0
+			}
+			m := fill(uint64(i+1), n)
+			m = append([]byte{byte(i)}, m...)
+			if !sender.Send([]byte{0x20, 0x90}[i%2], m) {
+				t.Fatalf("payload size %d: message of %d bytes not accepted for sending", p, len(m))
+			}
+			want = append(want, m)
+		}
+		ok := rs.waitFor(func(n, nerr int) bool { return n >= len(want) || nerr > 0 })
+		rs.mu.Lock()
+		if len(rs.errs) > 0 {
+			t.Fatalf("max_packet_msg_payload_size=%d on both ends: the receiver killed the connection on legitimate traffic: %v", p, rs.errs)
+		}
+		if !ok {
+			t.Fatalf("VERIF-INFRA: payload %d: delivery not finished in %v", p, deliveryWait)
+		}
+		for i, m := range want {
+			got := rs.got[[]byte{0x20, 0x90}[i%2]][i/2]
+			if string(got) != string(m) {
+				t.Fatalf("payload size %d: message %d altered", p, i)
+			}
+		}
+		rs.mu.Unlock()
+		lib.Case("TestDirectedPayloadSizes", lib.FP(p), true)
+		sender.Stop()   //nolint
+		receiver.Stop() //nolint
+		c1.Close()
+		c2.Close()
 	}
 }
